@@ -521,8 +521,12 @@ __gmp_doprnt (const struct doprnt_funs_t *funs, void *data,
             break;
 
           case '+':
-          case ' ':
             param.sign = fchar;
+            break;
+          case ' ':
+            /* as in C, '+' overrides ' ' whichever comes first */
+            if (param.sign != '+')
+              param.sign = fchar;
             break;
 
           case '-':
